@@ -10,6 +10,7 @@ EXPLANATION = (
     "short read, CRC mismatch and an undecodable body must all reach Ok(None); (2) the append position clause is C01.5 (re-checked here); "
     "(3) the record buffer allocated from the untrusted length field is dominated by an upper-bound test whose `too large` arm does not reach "
     "the allocation. It does not decide which transactions recovery then exposes."
+    " C17.2 reports explicitly when Wal::append no longer positions the file cursor itself."
 )
 
 NEXT = "nervusdb_storage::wal::WalReader::next_record"
